@@ -442,6 +442,9 @@ def r06_7_bound_formulas(ctx: Ctx, rule: str = "R06.7") -> None:
     same = lambda a, n, c: (n, n)  # noqa: E731
     for name in ("Calculation", "Projection", "Sort", "Identity"):
         extra = [{}]
+        if name == "Projection":
+            # with and without columns: a projection onto nothing still has one (empty) row per row of its target
+            extra = [{"columns": frozenset()}, {"columns": frozenset({"k"})}]
         unary(name, extra, same)
     unary("Deduplication", [{}], lambda a, n, c: (min(n, 1), n if c else min(n, 1)))
     unary("Selection", [{}], lambda a, n, c: (0, n))
